@@ -64,6 +64,17 @@ public:
   /// See class-level documentation for the ordering invariant.
   virtual ConnectResult connect(const std::string &host, std::uint16_t port,
                                 TlsMode tlsMode) = 0;
+
+  /// \brief As connect(), for a connection made to an ADDRESS on behalf of a NAME
+  /// the caller resolved itself: \p tlsServerName is what a TLS client session
+  /// sends as SNI and, when the peer is verified, requires the certificate to be
+  /// issued for. Empty = use \p host. Engines without TLS ignore it.
+  virtual ConnectResult connect(const std::string &host, std::uint16_t port, TlsMode tlsMode,
+                                const std::string &tlsServerName)
+  {
+    (void)tlsServerName;
+    return connect(host, port, tlsMode);
+  }
   virtual ConnectResult connectViaListener(ListenerId lid, const std::string &host,
                                            std::uint16_t port) = 0;
   virtual bool close(SessionId sid) = 0;
